@@ -407,6 +407,35 @@ fn run_generic<const N: usize>(c: &ACase) -> Result<u64, String> {
                         measured!("io::BufRead::consume", N > 0 && m > 0, bb.consume(1));
                         let _ = measured!("io::Read::read", N > 1 && m > 1, bb.read(&mut dst[..m.min(40)]));
                         let _ = measured!("Extend<&u8>", m > 0, bb.extend(src[..m.min(40)].iter()));
+                        // the provided methods of the std traits too, on a rotated buffer; the error paths
+                        // (short read_exact) must not allocate either
+                        for _ in 0..(c.start as usize) % (N + 1) {
+                            bb.push_back(1);
+                            bb.pop_front();
+                        }
+                        let _ = measured!("io::Write::write_all", m > 0, bb.write_all(&src[..m.min(40)]));
+                        let have = bb.len();
+                        let _ = measured!("io::Read::read_exact (enough bytes)", have > 1, bb.read_exact(&mut dst[..(have / 2).min(40)]));
+                        let _ = measured!("io::Write::write_fmt", false, write!(bb, "{}-{}", m, "x"));
+                        let have = bb.len();
+                        let short = measured!("io::Read::read_exact (too few bytes)", false, bb.read_exact(&mut dst[..(have + 1).min(40)]));
+                        if have < 40 && short.is_ok() {
+                            return Err("harness self-check: read_exact beyond the contents succeeded".into());
+                        }
+                        measured!("dropping the read_exact error", false, drop(short));
+                        let _ = measured!("io::Write::write_vectored", m > 0, {
+                            let bufs = [std::io::IoSlice::new(&src[..m.min(40)]), std::io::IoSlice::new(&src[..3])];
+                            bb.write_vectored(&bufs)
+                        });
+                        let _ = measured!("io::Read::read_vectored", N > 0, {
+                            let (d1, d2) = dst.split_at_mut(2);
+                            let mut bufs = [std::io::IoSliceMut::new(d1), std::io::IoSliceMut::new(&mut d2[..m.min(30)])];
+                            bb.read_vectored(&mut bufs)
+                        });
+                        let _ = measured!("io::Read::bytes", false, Read::by_ref(&mut bb).bytes().take(2).filter(|r| r.is_ok()).count());
+                        let _ = bb.write(&src[..m.min(40)]);
+                        let _ = measured!("io::copy into a sink", N > 0 && m > 0, std::io::copy(&mut bb, &mut std::io::sink()));
+                        let _ = measured!("io::Read::take + read", false, Read::by_ref(&mut bb).take(3).read(&mut dst[..5]));
                     }
                     #[cfg(not(feature = "cb-std"))]
                     {
